@@ -1,7 +1,7 @@
 --------------------------- MODULE SwitchesTrace ---------------------------
 (* Recorded runs of ConsoleApplication.run on the fixed application checked against Switches.
    event: [units : the line ([k, t] records), beh, streams,
-           obs   : [status, exc, calls, outTags, errTags (arrays), outEsc, errEsc, io [ran, quiet, level, inter], page,
+           obs   : [status, exc, calls, built (how often a handler factory ran), outTags, errTags (arrays), outEsc, errEsc, io [ran, quiet, level, inter], page,
                     answer, consumed, args, outId, errId (interned stream texts)],
            hasBase, base : the observation of the same line without the switch look-alikes after "--"]
    P-clauses: the P-layer of Switches on the observation.  A-clauses (only for lines inside the modelled placements):
@@ -16,7 +16,7 @@ Ev == T[l]
 \* JSON arrays -> sets for the tags
 Obs(r) == [status |-> r.status, calls |-> r.calls, outTags |-> Range(r.outTags), errTags |-> Range(r.errTags),
            outEsc |-> r.outEsc, errEsc |-> r.errEsc, io |-> r.io, page |-> r.page, answer |-> r.answer,
-           consumed |-> r.consumed, args |-> r.args]
+           consumed |-> r.consumed, args |-> r.args, built |-> r.built]
 
 FamKey(line) == (IF Given(line, QuietT) THEN "q" ELSE "") \o (IF Given(line, HelpT) THEN "h" ELSE "")
                 \o (IF Given(line, VersionT) THEN "V" ELSE "")
